@@ -423,6 +423,9 @@ class Evaluator:
         if isinstance(s, ast.Break):
             self._loop_flags[-1]["break"] = True
             self.emit("break", s, locs=dict(st.locs), attrs=dict(st.attrs))
+            if self._loop_flags and "unroll" in self._loop_flags[-1]:
+                fl = self._loop_flags[-1]
+                fl["brks"].append((self._pc_cond(fl["base"]), st.copy()))
             return None
         if isinstance(s, ast.Continue):
             self.emit("continue", s, locs=dict(st.locs), attrs=dict(st.attrs))
@@ -519,10 +522,10 @@ class Evaluator:
         lid = "%s#L%d" % (fr.func.qualname, fr.loop_n)
         is_for = isinstance(s, ast.For)
         it = self.ev(s.iter, st) if is_for else None
-        if is_for and not s.orelse:
+        if is_for:
             ia = it.single_atom()
-            if ia is not None and ia[0] in ("tuple", "list") and 1 <= len(ia[1]) <= 2 and not any(
-                    isinstance(n, (ast.Break, ast.Return)) for n in ast.walk(s)):
+            if ia is not None and ia[0] in ("tuple", "list") and 1 <= len(ia[1]) <= (8 if _cheap_body(s) else 2) and not any(
+                    isinstance(n, ast.Return) or (isinstance(n, (ast.For, ast.While)) and n is not s) for n in ast.walk(s)):
                 fr.loop_n -= 1
                 return self._unrolled(s, ia[1], st)
         # discover what the body may write (fixpoint, silent)
@@ -594,19 +597,29 @@ class Evaluator:
 
     def _unrolled(self, s, items, st):
         """for x in (a, b): body  ==  body[x:=a]; body[x:=b]  (short literal collections only; `continue` ends the copy)"""
+        base = len(self.pc)
+        broken = []   # (condition under which the loop was left by `break`, state at that point)
         for x in items:
             if st is None:
-                return None
+                break
             mark = len(self.pc)
             self.assign(s.target, x, st, s, quiet=True)
-            flags = {"break": False, "unroll": mark, "conts": []}
+            flags = {"break": False, "unroll": mark, "conts": [], "brks": [], "base": base}
             self._loop_flags.append(flags)
             end = self.exec_block(s.body, st)
             self._loop_flags.pop()
             del self.pc[mark:]
             for cnd, cst in flags["conts"]:
                 end = cst if end is None else State(self._merge_maps(cnd, cst.attrs, end.attrs), self._merge_locs(cnd, cst.locs, end.locs))
+            for cnd, bst in flags["brks"]:
+                broken.append((cnd, bst))
+                self.push_pc(cnd, False, s)   # the remaining copies run only when this one did not break
             st = end
+        if s.orelse and st is not None:
+            st = self.exec_block(s.orelse, st)  # the else block runs when no copy broke out (those conditions are on the pc)
+        del self.pc[base:]
+        for cnd, bst in reversed(broken):
+            st = bst if st is None else State(self._merge_maps(cnd, bst.attrs, st.attrs), self._merge_locs(cnd, bst.locs, st.locs))
         return st
 
     def _havoc(self, st, hav_a, hav_l, lid):
@@ -927,6 +940,7 @@ class Evaluator:
         return None
 
     _nt_fields = {}
+    _lambdas = {}
 
     def mk_getattr(self, base, name, st=None, node=None):
         a = base.single_atom()
@@ -1189,7 +1203,16 @@ class Evaluator:
         a = e.args
         if len(a.args) == 1 and isinstance(e.body, ast.Name) and e.body.id == a.args[0].arg:
             return atom(("lambda", "identity"))
-        return atom(("lambda", ast.unparse(e)))
+        txt = ast.unparse(e)
+        if not (a.vararg or a.kwarg or a.kwonlyargs or a.defaults or a.posonlyargs):
+            params = {x.arg for x in a.args}
+            free = {n.id for n in ast.walk(e.body) if isinstance(n, ast.Name)} - params
+            mi = self.frames[-1].func.module
+            import builtins as _b
+            if all((n in mi.imports or n in mi.classes or n in mi.functions or n in mi.globals or hasattr(_b, n)) and n not in st.locs for n in free):
+                # a closed lambda (no captured locals): calling it is evaluating its body on the arguments
+                self._lambdas[txt] = (e, self.frames[-1].func)
+        return atom(("lambda", txt))
 
     def _comp(self, kind, e, st, elts):
         fr = self.frames[-1]
@@ -1258,8 +1281,41 @@ class Evaluator:
                 return ast.copy_location(ast.Attribute(value=n.args[0], attr=T.const_py(nm), ctx=ast.Load()), n)
         return None
 
+    def _first_match(self, e, st):
+        """next((elt for x in <literal table> if cond), default): the element of the first row whose condition holds"""
+        if not (isinstance(e.func, ast.Name) and e.func.id == "next" and "next" not in st.locs and len(e.args) in (1, 2) and not e.keywords
+                and isinstance(e.args[0], ast.GeneratorExp) and len(e.args[0].generators) == 1):
+            return None
+        g = e.args[0].generators[0]
+        save = len(self.trace.events)
+        itv = self.ev(g.iter, st)
+        ia = itv.single_atom()
+        if ia is None or ia[0] not in ("tuple", "list") or not (1 <= len(ia[1]) <= 6) or len(e.args) != 2:
+            return None
+        rows = []
+        sub = State(st.attrs, dict(st.locs))
+        mark = len(self.pc)
+        for x in ia[1]:
+            self.assign(g.target, x, sub, e, quiet=True)
+            cnd = T.mk_and([self.ev(c_, sub) for c_ in g.ifs]) if g.ifs else T.TRUE
+            self.push_pc(cnd, True, e)
+            val = self.ev(e.args[0].elt, sub)
+            del self.pc[-1:]
+            rows.append((cnd, val))
+            self.push_pc(cnd, False, e)   # later rows are looked at only when this one did not match
+        default = self.ev(e.args[1], sub)
+        del self.pc[mark:]
+        st.attrs = sub.attrs
+        out = default
+        for cnd, val in reversed(rows):
+            out = T.mk_ite(cnd, val, out)
+        return out
+
     def ev_Call(self, e, st):
         f = e.func
+        fm = self._first_match(e, st)
+        if fm is not None:
+            return fm
         g = self._static_getattr(f, st)
         if g is not None:
             e2 = ast.copy_location(ast.Call(func=g, args=e.args, keywords=e.keywords), e)
@@ -1442,8 +1498,22 @@ class Evaluator:
             res = atom(("call", "getattr", tuple(args), ()))
             self.emit("call", node, callee=("lib", "getattr"), fi=None, args=tuple(args), kwargs=(), result=res)
             return res
+        if d == "setattr" and len(args) == 3 and not kwargs and args[0].single_atom() == ("self",) and T.is_pure_const(args[1]) \
+                and isinstance(T.const_py(args[1]), str) and T.const_py(args[1]).isidentifier():
+            # setattr(self, "<constant name>", v)  ==  self.<name> = v
+            self.store_attr(T.const_py(args[1]), args[2], st, node)
+            return T.NONE
         if d == "getattr" or d == "setattr":
             raise AnalysisError("dynamic attribute access (%s) at line %d" % (d, node.lineno))
+        if d == "zip" and len(args) >= 2 and not kwargs:
+            lits = [x.single_atom() for x in args]
+            if all(l is not None and l[0] in ("tuple", "list") for l in lits) and len({len(l[1]) for l in lits}) == 1 and len(lits[0][1]) <= 8:
+                # zip of literal collections of one length is the literal collection of the tuples
+                return atom(("tuple", tuple(atom(("tuple", tuple(l[1][i] for l in lits))) for i in range(len(lits[0][1])))))
+        if d in ("tuple", "list") and len(args) == 1 and not kwargs:
+            la = args[0].single_atom()
+            if la is not None and la[0] in ("tuple", "list") and not any((x.single_atom() or ("",))[0] == "starred" for x in la[1]):
+                return atom((d, la[1]))  # tuple([a, b]) is (a, b); list((a, b)) is [a, b]
         if d == "slice" and not kwargs and 1 <= len(args) <= 3:
             # slice(a, b) is the object x[a:b] subscripts with
             lo, hi, stp = (T.NONE, args[0], T.NONE) if len(args) == 1 else (args[0], args[1], args[2] if len(args) == 3 else T.NONE)
@@ -1474,6 +1544,17 @@ class Evaluator:
                 return self._call_dotted(a[1], args, kwargs, st, node)
             if a[0] == "lambda" and a[1] == "identity" and len(args) == 1:
                 return args[0]
+            if a[0] == "lambda" and a[1] in self._lambdas and not kwargs:
+                lam, owner = self._lambdas[a[1]]
+                if len(lam.args.args) == len(args):
+                    sub = State(st.attrs, dict(zip((x.arg for x in lam.args.args), args)))
+                    self.frames.append(Frame(owner, self.recv, False, node, len(self.pc)))
+                    try:
+                        v = self.ev(lam.body, sub)
+                    finally:
+                        self.frames.pop()
+                    st.attrs = sub.attrs
+                    return v
         res = atom(("call", "<dynamic>", (fv,) + tuple(args), _kw(kwargs)))
         self.emit("call", node, callee=("dynamic", fv), fi=None, args=tuple(args), kwargs=_kw(kwargs), result=res)
         return res
@@ -1589,6 +1670,24 @@ class Evaluator:
             else:
                 self.emit("localmut", node, name=None, how="method:" + name, path=tuple(path), value=atom(("tuple", tuple(args))), aug=None, old=recv, kwargs=_kw(kwargs))
         return res
+
+
+_CHEAP_CALLS = frozenset(("setattr", "getattr", "list", "dict", "set", "tuple", "len", "int", "float", "bool", "str", "append", "copy", "isinstance"))
+
+
+def _cheap_body(loop):
+    """a loop body of at most three simple statements whose only calls are attribute plumbing (setattr / getattr / append ...)"""
+    if len(loop.body) > 3:
+        return False
+    for st_ in loop.body:
+        if not isinstance(st_, (ast.Expr, ast.Assign, ast.AugAssign, ast.If)):
+            return False
+        for n in ast.walk(st_):
+            if isinstance(n, ast.Call):
+                nm = n.func.id if isinstance(n.func, ast.Name) else (n.func.attr if isinstance(n.func, ast.Attribute) else None)
+                if nm not in _CHEAP_CALLS:
+                    return False
+    return True
 
 
 def _pure_literal(n, mi, depth=0):
